@@ -13,6 +13,7 @@ import (
 	"math/rand"
 	"os"
 	"reflect"
+	"runtime/debug"
 	"strings"
 	"time"
 
@@ -292,6 +293,9 @@ func codecMain(args []string) {
 	replay := fs.String("replay", "", "replay file")
 	_ = fs.String("gen", "", "TLC generation output (payload modes)")
 	must(fs.Parse(args))
+	// an unbounded recursion in the code under test ends the process (a stack overflow cannot be
+	// recovered): let it end at 256 MB rather than at the default gigabyte
+	debug.SetMaxStack(256 << 20)
 	if *replay != "" {
 		codecReplay(*replay)
 		return
